@@ -27,7 +27,7 @@ run scripts with the working directory set to {wt} and `sys.path.insert(0, os.ge
 The property:
 {json.dumps(text, indent=1)}
 
-Produce FOUR different changes m1..m4. Requirements for each:
+{os.environ.get("MKPROMPT_EXTRA", "")}Produce FOUR different changes m1..m4. Requirements for each:
  * it is a plausible slip or "optimisation" a maintainer could make (a few lines), not sabotage like `raise` or `return None`;
  * with it, the library still imports and the whole test suite still passes (run it!);
  * it breaks the property above, and you demonstrate that with a script;
